@@ -285,7 +285,7 @@ def handle (c : Case) : Res := Id.run do
   let dims := c.nat "F.dims"; let m := dims[0]!; let n := dims[1]!
   let info := (c.pInt "info").toNat
   let path := c.p "path"
-  let tags := [s!"ty={c.ty}", s!"path={path}", s!"ws={c.p "ws" "0"}", s!"stor={c.p "stor"}", s!"val={c.p "val"}", s!"sing={c.p "sing"}",
+  let tags := [s!"ty={c.ty}", s!"path={path}", s!"ws={c.p "ws" "0"}", (if c.pNat "expansions" > 0 then (if c.p "ws" "0" == "1" then "expansions-in-workspace" else "expansions-malloc") else "no-expansion"), s!"stor={c.p "stor"}", s!"val={c.p "val"}", s!"sing={c.p "sing"}",
                s!"colperm={c.p "colperm"}", s!"symm={c.p "symm"}", if m > n then "tall" else "square",
                if info = 0 then "info0" else if info ≤ n then "info-singular" else "info-mem"]
   if c.p "evoverflow" ≠ "0" then return Res.skip "event log inconsistent"
